@@ -5,6 +5,7 @@ package main
 
 import (
 	"fmt"
+	"strings"
 	"time"
 )
 
@@ -111,6 +112,30 @@ func init() {
 		layout := in.concStr(args[1], "Format layout")
 		st := args[0].(structure)
 		ext, _ := st[1].(*Term)
+		if lp, ok := st[2].(*value); ok && lp != nil && ext != nil {
+			// a Time in the local zone: the process time zone is part of the environment and is
+			// explored - UTC, a negative and a positive offset. Under a non-zero offset the text
+			// is that of the shifted instant (an opaque piece unless it is concrete).
+			if off := in.tzOffset(); off != 0 {
+				shifted := in.tb.BVAdd(ext, in.tb.BV(SBV64, uint64(off)))
+				if _, isDay := in.path.dayByExt[ext]; isDay && dateOnlyLayout(layout) {
+					// midnight UTC shown with a date-only layout: the same calendar day east of
+					// Greenwich, the previous day west of it
+					if off > 0 {
+						shifted = ext
+					} else {
+						shifted = in.tb.BVAdd(ext, in.tb.BV(SBV64, uint64(0xFFFFFFFFFFFFFFFF-86400+1)))
+					}
+					if ph, ok := in.path.dayByExt[shifted]; ok && in.path.days[ph].layout == layout {
+						return ph
+					}
+				}
+				if t, ok := nativeTime(structure{st[0], shifted, (*value)(nil)}); ok {
+					return t.Format(layout)
+				}
+				return &Rope{atoms: []Atom{in.newOpaque("time:"+layout, shifted)}}
+			}
+		}
 		if ext != nil {
 			if ph, ok := in.path.dayByExt[ext]; ok {
 				if in.path.days[ph].layout == layout {
@@ -149,6 +174,36 @@ func init() {
 		n := in.tb.BVAdd(ext, in.tb.BVMul(d, in.tb.BV(SBV64, 86400)))
 		return structure{st[0], n, st[2]}
 	}
+}
+
+// dateOnlyLayout reports whether a time layout shows no clock or zone component.
+func dateOnlyLayout(layout string) bool {
+	for _, c := range []string{"15", "03", "3", "04", "4", "05", "5", "PM", "pm", "MST", "Z07", "-07", "Z0", ".0", ".9", ",0", ",9"} {
+		if strings.Contains(layout, c) {
+			return false
+		}
+	}
+	return true
+}
+
+// tzOffset returns the offset (seconds east of UTC) of the process's local time zone on this
+// path: chosen nondeterministically, once, among UTC, UTC-5h and UTC+13h.
+func (in *Interp) tzOffset() int64 {
+	if in.path.tzSet {
+		return in.path.tz
+	}
+	in.path.tzSet = true
+	switch in.choose(3, "tz") {
+	case 1:
+		in.path.tz = -5 * 3600
+		in.path.labels["tz"] = "UTC-5"
+	case 2:
+		in.path.tz = 13 * 3600
+		in.path.labels["tz"] = "UTC+13"
+	default:
+		in.path.labels["tz"] = "UTC"
+	}
+	return in.path.tz
 }
 
 func init() {
